@@ -16,7 +16,7 @@ PROPS = {
         'bounds': 'loop-free: every value of every symbolic input (operands, 16-bit flag word, 14 registers, 1 MiB memory, probe address)',
         'outside': 'the LALRPOP parser driver / lexer (which production fires for which text) is validated by native '
                    'runs of the real parser on rendered instructions, not by the solver',
-        'backends': [(r'^c01_', ['z3', 'cvc5', 'sat-arrays']), (r'_(rr|ri)(8|16)$', ['sat', ('cvc5', 'z3')]), (r'.*', [('cvc5', 'z3'), 'sat-arrays'])],
+        'backends': [(r'^c01_', ['z3', 'cvc5', 'sat-arrays']), (r'_(rr|ri)(8|16)$|_unary_r(8|16)$', ['sat', ('cvc5', 'z3')]), (r'.*', [('cvc5', 'z3'), 'sat-arrays'])],
         'timeout': {'quick': 600, 'thorough': 1800},
         'assumptions': ['B-harnesses take the physical address of a memory operand as an arbitrary symbolic value (that it is the right address is C04)'],
         'level_text': 'bounded model checking with no bound needed (loop-free): CBMC decides every labelled obligation '
@@ -46,7 +46,8 @@ PROPS['C03'] = {
                    'divide error = Err for a zero divisor or a quotient that does not fit; no implicit check can fail',
     'bounds': 'loop-free: every AX / DX:AX, operand, flag word, register and memory content',
     'outside': 'the driver\'s INT 0 message and exit (inside CMDDriver::run)',
-    'backends': [(r'_frame_|_twin_', ['z3', 'cvc5', 'sat-arrays']), (r'c03_word_i?div$', ['z3', 'cvc5']), (r'.*', ['sat', 'z3'])],
+    'backends': [(r'_frame_|_twin_|_frame$', [('z3', 'cvc5'), 'sat-arrays']), (r'c03_word_i?div$', ['z3', 'cvc5']),
+                 (r'^c03b_unary_r(8|16)_k', [('z3', 'cvc5'), 'sat']), (r'^c03b_', [('cvc5', 'z3'), 'sat-arrays']), (r'.*', ['sat', 'z3'])],
     'timeout': {'quick': 400, 'thorough': 1800},
     'assumptions': ['word DIV/IDIV: the reference uses Rust\'s own / and % on the same operands (a divider-vs-multiplier query does not finish); byte DIV/IDIV are checked against the multiplicative definition n = q*d + r',
                     'flags that the manual leaves undefined are not compared',
